@@ -118,10 +118,10 @@ func (l *memLoader) GetModifiedTime(name string) (int64, error) {
 
 // how the library is replaced
 const (
-	mReg      = iota // everything registered with RegisterString; the library is registered again
-	mNoCache         // everything comes from a loader, caching disabled; the loader's source of the library changes
-	mReload          // everything comes from a timestamp-aware loader, auto-reload on; source and time of the library change
-	mRegLoad         // calling templates registered with RegisterString, the library from a timestamp-aware loader, auto-reload on
+	mReg     = iota // everything registered with RegisterString; the library is registered again
+	mNoCache        // everything comes from a loader, caching disabled; the loader's source of the library changes
+	mReload         // everything comes from a timestamp-aware loader, auto-reload on; source and time of the library change
+	mRegLoad        // calling templates registered with RegisterString, the library from a timestamp-aware loader, auto-reload on
 	nMechs
 )
 
@@ -301,7 +301,7 @@ func checkReplace(c kase, ch, mech int) *vlib.Outcome {
 		o.Violation = fmt.Sprintf("a call must render the version of the macro library that is current at that render (mechanism %s); calling templates %v, library %q version 1 %q, version 2 %q; %s",
 			mechName[mech], show(callers), c.libName(), show(map[string]string{"": libs[0]})[""], show(map[string]string{"": libs[1]})[""], strings.Join(bad, "; "))
 		o.Detail = map[string]interface{}{"mechanism": mechName[mech], "calling_templates": show(callers), "library": c.libName(),
-			"library_versions": []string{show(map[string]string{"": libs[0]})[""], show(map[string]string{"": libs[1]})[""]},
+			"library_versions":    []string{show(map[string]string{"": libs[0]})[""], show(map[string]string{"": libs[1]})[""]},
 			"expected_by_version": want, "context": ctx(), "mismatches": detail}
 	}
 	return o
